@@ -32,10 +32,13 @@ type c05Case struct {
 	// the recorded active set exists but is being deleted (deletionTimestamp set, kept by a finalizer such as
 	// foregroundDeletion): it still exists, so the rule - not the adoption shortcut - decides
 	ActiveTerminating bool
+	// PauseLands: the user's canary-paused=true annotation is written after the reconcile has read the object and
+	// right before it writes the status (only drawn when no other pause source is set)
+	PauseLands bool
 }
 
 func (k c05Case) String() string {
-	return fmt.Sprintf("strategy=%d age=%d noRestarts=%d lastRestart=%d pause=%d unpaused=%v valid=%d failed=%v activeExists=%v activeTerminating=%v statusCanary=%d", k.Strategy, k.AgeVsDur, k.NoRestarts, k.LastRestart, k.Pause, k.Unpaused, k.Valid, k.Failed, k.ActiveExists, k.ActiveTerminating, k.StatusCanary)
+	return fmt.Sprintf("strategy=%d age=%d noRestarts=%d lastRestart=%d pause=%d unpaused=%v valid=%d failed=%v activeExists=%v activeTerminating=%v statusCanary=%d pauseLandsBeforeStatusWrite=%v", k.Strategy, k.AgeVsDur, k.NoRestarts, k.LastRestart, k.Pause, k.Unpaused, k.Valid, k.Failed, k.ActiveExists, k.ActiveTerminating, k.StatusCanary, k.PauseLands)
 }
 
 const c05Duration = 2 * time.Minute
@@ -168,8 +171,31 @@ func runC05(k c05Case) (vs []mon.V, nontrivial bool, err error) {
 			return nil, false, fmt.Errorf("harness: could not mark the active replica set as terminating")
 		}
 	}
+	landed := false
+	if k.PauseLands && k.Pause == 0 && k.Valid != 1 && k.Strategy != 0 {
+		c.Faults = func(call *sim.Call) sim.FaultKind {
+			if !landed && call.Actor == sim.ActorEDS && call.Kind == "ExtendedDaemonSet" && (call.Verb == "status-update" || call.Verb == "status-patch") {
+				landed = true
+				_ = c.SetEDSAnnotation("ns1", "foo", oracle.AnnCanaryPaused, "true")
+			}
+			return sim.FaultNone
+		}
+	}
 	rec := c.Reconcile(sim.ActorEDS, "ns1", "foo")
+	c.Faults = nil
 	vs = mon.Check(rec, mon.Of("promotion-rule", "no-panic"), nil)
+	if landed {
+		// the status write was computed from a read that did not contain the pause: it must not go through as it is
+		// (the API rejects it with a conflict); after two more reconciles the paused canary must not be active
+		for i := 0; i < 2; i++ {
+			r2 := c.Reconcile(sim.ActorEDS, "ns1", "foo")
+			vs = append(vs, mon.Check(r2, mon.Of("promotion-rule", "no-panic"), nil)...)
+		}
+		// (once promoted, the controller clears the canary annotations: the annotation itself is no evidence any more)
+		if e := c.EDS("ns1", "foo"); e != nil && k.ActiveExists && e.Status.ActiveReplicaSet == target {
+			vs = append(vs, mon.V{Property: "C05", Monitor: "promotion-rule", Sig: "C05/promotion-rule/promoted-although/pause-written-before-the-status-write", Detail: fmt.Sprintf("canary-paused=true was written before the reconcile wrote its status, yet status.activeReplicaSet switched to %s by elapsed time", target)})
+		}
+	}
 	// the other direction, where the statement is explicit: a recorded active set that
 	// no longer exists => the matching one is adopted directly
 	if !k.ActiveExists && rec.Err == nil && rec.Panic == nil {
@@ -191,6 +217,7 @@ func c05Draw(rt *rapid.T) c05Case {
 		Pause: rapid.IntRange(0, 2).Draw(rt, "pause"), Unpaused: rapid.Bool().Draw(rt, "unpaused"), Valid: rapid.IntRange(0, 2).Draw(rt, "valid"),
 		Failed: rapid.Bool().Draw(rt, "failed"), ActiveExists: rapid.IntRange(0, 3).Draw(rt, "activeExists") != 0,
 		StatusCanary: rapid.IntRange(0, 2).Draw(rt, "statusCanary"), ActiveTerminating: rapid.IntRange(0, 3).Draw(rt, "activeTerminating") == 0,
+		PauseLands: rapid.IntRange(0, 3).Draw(rt, "pauseLands") == 0,
 	}
 }
 
@@ -250,7 +277,7 @@ func TestC05Exhaustive(t *testing.T) {
 											if i%shards != shard {
 												continue
 											}
-											k := c05Case{s, a, nr, lr, pz, up, v, f, ae, sc, term}
+											k := c05Case{s, a, nr, lr, pz, up, v, f, ae, sc, term, false}
 											vs, nt, err := runC05(k)
 											if err != nil {
 												t.Fatalf("%v", err)
